@@ -337,7 +337,7 @@ def run(tier, seed):
                                     theorem=pg['theorems'], problems=pg['problems']), False))
     ncases = 60 if tier == 'quick' else 800
     cases = [seed * 100000 + 18000 + i for i in range(ncases)]
-    for r in core.run_cases(run_case, cases):
+    for r in core.run_cases(run_case, core.with_corpus(PID, cases)):
         rep.merge(r)
     for r in core.run_cases(lambda_huge, [0]):
         rep.merge(r)
